@@ -641,8 +641,13 @@ fn manage(args: Arc<Args>, w: usize, nitems: usize, results: Arc<Mutex<BTreeMap<
 				Err(_) => break,
 			}
 		}
+		let child_pid = child.id();
 		let status = child.wait().ok();
 		let _ = reader.join();
+		// whatever the worker left behind (it may have been killed)
+		if let Some(base) = std::path::Path::new(&vharness::driver::tmp_root()).parent() {
+			let _ = std::fs::remove_dir_all(base.join(child_pid.to_string()));
+		}
 		if done {
 			return;
 		}
